@@ -17,3 +17,54 @@ Theorem C01_result_independent_of_fuel : forall n m e s r1 r2,
   eval n e s = r1 -> eval m e s = r2 -> r1 <> RFuel -> r2 <> RFuel -> r1 = r2.
 Proof. exact eval_fuel_irrelevant. Qed.
 Print Assumptions C01_result_independent_of_fuel.
+
+(* The core fragment (Tr/MiniGo.v: uint64 and bool values with wrap-around
+   arithmetic, := and var locals with shadowing, assignment, op-assignment,
+   ++/--, if/else with early returns).  tr_block is the term Coq reads from
+   goose's output (checked syntactically, function by function, on every run);
+   go_call is Go's semantics of the fragment (checked against the Go toolchain
+   on every run).  For every function body the translator model accepts, every
+   argument vector and every run of Go that returns: the emitted body, with the
+   parameters replaced by the arguments, evaluates under the reference
+   semantics to the value Go returns, in the store Go ends in. *)
+From GV Require Import Tr.MiniGo Tr.MiniGoProofs.
+
+Theorem C01_core_fragment_meaning_preserved : forall n tf fn e args v s',
+  tr_block tf (params_env (f_params fn)) Returned (f_body fn) = Some e ->
+  length args = length (f_params fn) ->
+  go_call n fn args = OReturn v s' ->
+  exists m, eval m (close (cs_of (rev (combine (map fst (f_params fn)) (map Imm args)))) e) state0 = RVal v s'.
+Proof. exact body_correct. Qed.
+Print Assumptions C01_core_fragment_meaning_preserved.
+
+(* functions without result *)
+Theorem C01_core_fragment_unit_functions : forall n tf fn e args r' s',
+  tr_block tf (params_env (f_params fn)) Returned (f_body fn) = Some e ->
+  length args = length (f_params fn) ->
+  go_call n fn args = ONormal r' s' ->
+  exists m, eval m (close (cs_of (rev (combine (map fst (f_params fn)) (map Imm args)))) e) state0 = RVal (LitV LitUnit) s'.
+Proof. exact body_correct_unit. Qed.
+Print Assumptions C01_core_fragment_unit_functions.
+
+(* every statement list, every usage, every environment the translator's view
+   agrees with: the general statement the two above are instances of *)
+Theorem C01_statement_lists : forall n tf G u b e r s,
+  tr_block tf G u b = Some e -> agree G r s -> post u e r s (go_block n r s b).
+Proof. exact block_correct. Qed.
+Print Assumptions C01_statement_lists.
+
+(* expressions: operators, conversions between comparison spellings, && and || *)
+Theorem C01_expressions : forall G r s, agree G r s ->
+  forall e e' v, tr_expr G e = Some e' -> go_expr r s e = Some v ->
+  exists m, eval m (close (cs_of r) e') s = RVal v s.
+Proof. exact tr_expr_correct. Qed.
+Print Assumptions C01_expressions.
+
+(* the hypotheses are satisfiable: an accepted function with shadowing, an
+   early return and updates, returning in Go *)
+Theorem C01_example :
+  (exists e, tr_block 20 (params_env (f_params example_fn)) Returned (f_body example_fn) = Some e) /\
+  (exists s', go_call 20 example_fn [LitV (LitInt 1); LitV (LitBool true)] = OReturn (LitV (LitInt 24)) s') /\
+  (exists s', go_call 20 example_fn [LitV (LitInt 40); LitV (LitBool false)] = OReturn (LitV (LitInt 81)) s').
+Proof. exact example_fn_accepted_and_returns. Qed.
+Print Assumptions C01_example.
